@@ -53,6 +53,15 @@ SPEC = {
         "ASSUMPTIONS": ["the model Gfa is a pure state machine: a failing operation returns the old state by construction; that the "
                         "implementation does the same is decided by the correspondence (full observation after every failing call) and the oracle"],
     },
+    "C09": {
+        "LEAN": {"modules": ["GfaProofs.C09"], "support": ["GfaModel.Graph", "GfaProofs.Lemmas.Graph"],
+                 "theorems": ["Gfa.C09.nodup_reachable", "Gfa.C09.step_nodup", "Gfa.C09.add_nodup", "Gfa.C09.rm_nodup",
+                              "Gfa.C09.rename_nodup", "Gfa.C09.lookup_sound", "Gfa.C09.lookup_none", "Gfa.C09.lookup_complete",
+                              "Gfa.C09.rename_dup_raises", "Gfa.C09.add_dup_raises", "Gfa.C09.add_complement_noop",
+                              "Gfa.C09.setName_name", "Gfa.G.renameIn_name"]},
+        "ASSUMPTIONS": ["references are identifier-keyed in the model (object pointers in gfapy); equality of the two views is what the "
+                        "correspondence compares after every step", "rename to the placeholder '*' is outside the model"],
+    },
     "C13": {
         "LEAN": {"modules": ["GfaProofs.C13"], "support": ["GfaModel.Version"],
                  "theorems": ["Gfa.C13.build_eq_spec", "Gfa.C13.build_perm", "Gfa.C13.queued_once", "Gfa.C13.accepted_version",
@@ -94,7 +103,7 @@ SPEC = {
     "C19": {
         "LEAN": {"modules": ["GfaProofs.C19", "GfaProofs.Bridge.Clone"], "support": ["GfaModel.Heap"],
                  "theorems": ["Gfa.C19.clone_equal", "Gfa.C19.clone_detached", "Gfa.C19.clone_separate", "Gfa.C19.edits_independent",
-                              "Gfa.C19.edits_independent'", "Gfa.C19.edit_frame", "Gfa.C19.ids_copy", "Gfa.C19.shared_is_not_independent",
+                              "Gfa.C19.edits_independent_rev", "Gfa.C19.edit_frame", "Gfa.C19.ids_copy", "Gfa.C19.shared_is_not_independent",
                               "Gfa.Bridge.Clone.no_mutable_shared", "Gfa.Bridge.Clone.reference_fields_named"]},
         "ASSUMPTIONS": ["object-identity model of field values (tree of objects with id()); which classes the clone copies is extracted from "
                         "the running code per value class (Bridge.Clone)"],
